@@ -109,7 +109,7 @@ fn apply_f(v: &mut Vector<f64>, op: &str, t: &mut Toks, cx: &mut Ctx) -> String 
 fn apply_c(v: &mut Vector<Cmplx>, op: &str, t: &mut Toks, cx: &mut Ctx) -> String {
     let before = v.vec.clone();
     match op {
-        "conj" => { let r = guarded(|| v.conj()); if let Ok(x) = &r { cx.check((0..before.len()).all(|i| x[i].real == before[i].real && x[i].imag.to_bits() == (-before[i].imag).to_bits()), "conj"); } outcome(&r.map(|x| { *v = x; String::new() })) }
+        "conj" => { let r = guarded(|| v.conj()); if let Ok(x) = &r { cx.check((0..before.len()).all(|i| x[i].real.same(&before[i].real) && x[i].imag.same(&(-before[i].imag))), "conj"); } outcome(&r.map(|x| { *v = x; String::new() })) }
         "real" => { let r = guarded(|| v.real()); if let Ok(x) = &r { cx.check((0..before.len()).all(|i| x[i].to_bits() == before[i].real.to_bits()), "real"); } outcome(&r.map(|x| wr_vector(&x))) }
         "norminf" => { let r = guarded(|| v.norm_inf()); if before.is_empty() { cx.check(r.is_err(), "norm_inf of an empty vector returned a value"); } outcome(&r.map(|x| x.wr())) }
         _ => apply(v, op, t, cx).unwrap_or_else(|| panic!("HARNESS: unknown vector op {}", op)),
@@ -177,7 +177,7 @@ fn spaces(t: &mut Toks, cx: &mut Ctx) -> String {
                 cx.check(x.size() == n, &format!("{}: wrong length", name));
                 cx.check(x[0] == a, &format!("{}: does not start exactly at a", name));
                 cx.check((x[n - 1] - b).abs() <= 4.0 * f64::EPSILON * (a.abs() + b.abs() + (b - a).abs()), &format!("{}: does not end at b within rounding", name));
-                let mono = (1..n).all(|i| if a < b { x[i] >= x[i - 1] } else if a > b { x[i] <= x[i - 1] } else { true });
+                let mono = (1..n).all(|i| if a < b { x[i] >= x[i - 1] } else if a > b { x[i] <= x[i - 1] } else { x[i] == a });
                 cx.check(mono, &format!("{}: not monotone", name)); }
               Err(c) => cx.fail(format!("{} panicked ({})", name, c)) }
         }
@@ -259,5 +259,10 @@ pub fn gen(rng: &mut Rng, tier: Tier, out: &mut Vec<String>) {
         let n = if rng.chance(10) { rng.below(3) } else { 2 + rng.below(40) };
         let p = *rng.pick(&[1.0f64, 2.0, 0.5, 3.0, 1.7]);
         out.push(format!("vec_spaces {} {} {} {}", a.wr(), b.wr(), n, p.wr()));
+        // degenerate (a == b) and nearly degenerate (a few ulps apart) intervals: the sequence must be constant,
+        // resp. monotone, whatever the rounding of the individual nodes
+        let n2 = 2 + rng.below(63);
+        let b2 = match rng.below(3) { 0 => a, 1 => f64::from_bits(a.to_bits() + 1 + rng.below(8) as u64), _ => f64::from_bits(a.to_bits().wrapping_sub(1 + rng.below(300) as u64)) };
+        if a.is_finite() && b2.is_finite() && a != 0.0 { out.push(format!("vec_spaces {} {} {} {}", a.wr(), b2.wr(), n2, p.wr())); }
     }
 }
